@@ -25,13 +25,19 @@ native_includes: conf.c
 */
 /*@unit
 name: register_context
-define: U_CONTEXT, U_PRESERVE, VERIF_REALLOC_ELEM_T=ctx_t
+define: U_CONTEXT, U_PRESERVE, VERIF_OWN_STRCMP, VERIF_OWN_STRCHR, VERIF_REALLOC_ELEM_T=ctx_t
 src: conf.c
 enforce: spifconf_register_context
 backend: z3,sat
 timeout: 150
-native: register
-native_includes: conf.c
+*/
+/*@unit
+name: register_context_null_late
+define: U_CONTEXT, U_CTX_NULL_LATE, U_PRESERVE, VERIF_OWN_STRCMP, VERIF_OWN_STRCHR, VERIF_REALLOC_ELEM_T=ctx_t
+src: conf.c
+enforce: spifconf_register_context
+backend: z3,sat
+timeout: 150
 */
 /*@unit
 name: register_builtin
@@ -44,6 +50,9 @@ native: register
 native_includes: conf.c
 */
 #include "vprelude.h"
+#ifdef U_CONTEXT
+#include "env_conf.h"      /* exact strcasecmp for short names: the "null" behaviour is decided by the name */
+#endif
 #include "src/conf.c"
 #define VERIF_CT_REGISTER
 #include "conf.h"
@@ -74,17 +83,35 @@ void harness(void)
 #endif
 
 #ifdef U_CONTEXT
-/* name "null" re-registers slot 0; any other name takes the next slot */
+/* name "null" (any letter case) re-registers slot 0; any other name takes the next slot.  Table invariant kept:
+ * EVERY registered context (ghost slot vg_k) has a name that is a C string — ctx_name_to_id passes each of them
+ * to strcasecmp on every "begin" line.
+ * Behaviour split: U_CTX_NULL_LATE = "null" is re-registered AFTER other contexts were added (ctx_idx > 0);
+ * the other unit covers every other call. */
+#define IS_NULL_NAME(n) (VLOW((n)[0]) == 'n' && VLOW((n)[1]) == 'u' && VLOW((n)[2]) == 'l' && VLOW((n)[3]) == 'l' && (n)[4] == 0)
 unsigned char spifconf_register_context(spif_charptr_t name, ctx_handler_t handler)
 __CPROVER_requires(CTXTAB_INV && ctx_idx < 255)
-__CPROVER_requires(VCSTR_FRESH(name, vg_n1) && handler != NULL)
-__CPROVER_requires(__CPROVER_is_fresh(context[0].name, 5))
+__CPROVER_requires(vg_n1 >= 4 && VCSTR_FRESH(name, vg_n1) && handler != NULL)
+/* slot 0 (the built-in "null" context) and the ghost slot have names */
+__CPROVER_requires(vg_n3 <= VCAP && __CPROVER_is_fresh(context[0].name, vg_n3 + 1) && context[0].name[vg_n3] == 0)
+__CPROVER_requires(vg_k == 0 || CTXNAME_AT(vg_k))
+#ifdef U_CTX_NULL_LATE
+__CPROVER_requires(ctx_idx > 0 && IS_NULL_NAME(name))
+#else
+__CPROVER_requires(!(ctx_idx > 0 && IS_NULL_NAME(name)))
+#endif
 __CPROVER_assigns(context, ctx_idx, ctx_cnt, __CPROVER_object_whole(context))
 __CPROVER_frees(context, context[0].name)
 __CPROVER_ensures(CTXTAB_POST)
-__CPROVER_ensures(__CPROVER_return_value == ctx_idx &&
+__CPROVER_ensures(__CPROVER_return_value <= ctx_idx &&
                   (ctx_idx == __CPROVER_old(ctx_idx) + 1 || ctx_idx == __CPROVER_old(ctx_idx)))
-__CPROVER_ensures(context[ctx_idx].handler == handler && context[ctx_idx].name != NULL)
+/* the slot the call returns holds the handler and a name */
+__CPROVER_ensures(vg_k != __CPROVER_return_value || (context[vg_k].handler == handler && context[vg_k].name != NULL))
+/* "null" goes to slot 0, anything else to a new slot */
+__CPROVER_ensures(IS_NULL_NAME(name) ? (__CPROVER_return_value == 0 && ctx_idx == __CPROVER_old(ctx_idx))
+                                     : (__CPROVER_return_value == ctx_idx && ctx_idx == __CPROVER_old(ctx_idx) + 1))
+/* every registered context still has a name that is a C string */
+__CPROVER_ensures(CTXNAME_POST_AT(vg_k))
 ;
 void harness(void)
 {
